@@ -78,6 +78,18 @@ structure St where
   G2 : Fan Rat := {}
   /-- storage index ↦ the index tuple of the loop nest that addresses it -/
   names : Std.HashMap Key Key := {}
+  /-- `DetPairData` family: dimensions, two data sets, efficiencies / fan sums (1-d), block and geometric factors (2-d) -/
+  dp : DPDims := ⟨2, 0⟩
+  P : Fan Rat := {}
+  P2 : Fan Rat := {}
+  V : Tab Rat := {}
+  V2 : Tab Rat := {}
+  nb : Int := 1
+  half : Int := 1
+  TB : Tab Rat := {}
+  TB2 : Tab Rat := {}
+  TG : Tab Rat := {}
+  TG2 : Tab Rat := {}
 
 def fanOfList (d : Dims) (vals : List Rat) : Fan Rat :=
   (d.canon.zip vals).foldl (fun F cv => F.put d cv.1.1 cv.1.2.1 cv.1.2.2.1 cv.1.2.2.2 cv.2) {}
@@ -101,6 +113,36 @@ def fanToFloat (d : Dims) (F : Fan Rat) : Fan Float :=
 
 def tabToFloat (d : Dims) (T : Tab Rat) : Tab Float :=
   d.dets.foldl (fun X k => X.set k (ratToFloat (T.get k))) {}
+
+def dpOfList (d : DPDims) (vals : List Rat) : Fan Rat :=
+  (d.canon.zip vals).foldl (fun F cv => F.set cv.1 cv.2) {}
+
+def dpToList (d : DPDims) (F : Fan Rat) : List Rat := d.canon.map F.get
+
+def vecOfList (n : Int) (vals : List Rat) : Tab Rat :=
+  ((intRange 0 (n - 1)).zip vals).foldl (fun T av => T.set (0, av.1) av.2) {}
+
+def vecToList (n : Int) (T : Tab Rat) : List Rat := (intRange 0 (n - 1)).map fun a => T.get (0, a)
+
+def gridOfList (n m : Int) (vals : List Rat) : Tab Rat :=
+  ((grid n m).zip vals).foldl (fun T kv => T.set kv.1 kv.2) {}
+
+def gridToList (n m : Int) (T : Tab Rat) : List Rat := (grid n m).map T.get
+
+def dpToFloat (d : DPDims) (F : Fan Rat) : Fan Float := d.canon.foldl (fun X c => X.set c (ratToFloat (F.get c))) {}
+
+def vecToFloat (n : Int) (T : Tab Rat) : Tab Float := (intRange 0 (n - 1)).foldl (fun X a => X.set (0, a) (ratToFloat (T.get (0, a)))) {}
+
+/-- `a b pos neg a b pos neg …` -/
+def parseBins (I : String → Int) (Q : String → Rat) : List String → List ((Int × Int) × (Rat × Rat))
+  | a :: b :: p :: n :: r => ((I a, I b), (Q p, Q n)) :: parseBins I Q r
+  | _ => []
+
+def parsePairs (I : String → Int) : List String → List (Int × Int)
+  | a :: b :: r => (I a, I b) :: parsePairs I r
+  | _ => []
+
+def intToRat (i : Int) : Rat := (i : Rat)
 
 def fmtKey (k : Key) : String := s!"{k.1} {k.2.1} {k.2.2.1} {k.2.2.2}"
 
@@ -188,6 +230,60 @@ def stepLine (st : St) (line : String) : St × String :=
     let F2 := fanToFloat st.d st.F2
     let v := klFan Float.log st.d F1 F2 (ratToFloat (Q thr))
     let mag := st.d.canon.foldl (fun s c => s + F1.at st.d c.1 c.2.1 c.2.2.1 c.2.2.2 + F2.at st.d c.1 c.2.1 c.2.2.1 c.2.2.2) (0 : Float)
+    (st, s!"kl {fmtRat (floatToRat v)} {fmtRat (floatToRat mag)}")
+  | ["fansumsnm"] => (st, fmtList (fanTerms st.d + 1) (tabToList st.d (makeFanSumsNM st.d st.E)))
+  | ["itereffnm", mode] =>
+    let n := (st.d.R * st.d.N).toNat * (fanTerms st.d + 3)
+    if mode == "rat" then (st, fmtList n (tabToList st.d (iterateEffNM st.d st.E st.S)))
+    else
+      let r := iterateEffNM st.d (tabToFloat st.d st.E) (tabToFloat st.d st.S)
+      (st, fmtList n (st.d.dets.map fun k => floatToRat (r.get k)))
+  | ["dpcfg", n, minT, maxT] =>
+    let dp := dpDimsOf (I n) (I minT) (I maxT)
+    ({ st with dp := dp }, s!"{dp.N} {dp.h}")
+  | "mkdp" :: rest =>
+    let F := makeDP st.dp (parseBins I Q rest)
+    ({ st with P := F }, fmtList 0 (dpToList st.dp F))
+  | "setdp" :: segnz :: rest =>
+    let l := setDP st.dp st.P (segnz == "1") (parsePairs I rest)
+    (st, fmtList 0 (l.flatMap fun pn => match pn.2 with
+      | some n => [pn.1, n]
+      | none => [pn.1]))
+  | "dpfan" :: vals => ({ st with P := dpOfList st.dp (vals.map Q) }, "ok")
+  | "dpfan2" :: vals => ({ st with P2 := dpOfList st.dp (vals.map Q) }, "ok")
+  | "dpeff" :: vals => ({ st with V := vecOfList st.dp.N (vals.map Q) }, "ok")
+  | "dpsums" :: vals => ({ st with V2 := vecOfList st.dp.N (vals.map Q) }, "ok")
+  | "dpblk" :: nb :: vals => ({ st with nb := I nb, TB := gridOfList (I nb) (I nb) (vals.map Q) }, "ok")
+  | "dpblk2" :: vals => ({ st with TB2 := gridOfList st.nb st.nb (vals.map Q) }, "ok")
+  | "dpgeo" :: half :: vals => ({ st with half := I half, TG := gridOfList (I half) st.dp.N (vals.map Q) }, "ok")
+  | "dpgeo2" :: vals => ({ st with TG2 := gridOfList st.half st.dp.N (vals.map Q) }, "ok")
+  | ["dpappeff", ap] => (st, fmtList 2 (dpToList st.dp (dpApplyEff st.dp st.P st.V (ap == "1"))))
+  | ["dpappblk", ap] => (st, fmtList 1 (dpToList st.dp (dpApplyBlock st.dp st.nb st.P st.TB (ap == "1"))))
+  | ["dpappgeo", ap] => (st, fmtList 1 (dpToList st.dp (dpApplyGeo st.dp st.half st.P st.TG (ap == "1"))))
+  | ["dpfansums"] => (st, fmtList (2 * st.dp.h + 1).toNat (vecToList st.dp.N (dpMakeFanSums st.dp st.P)))
+  | ["dpmkgeo"] =>
+    let n := 2 * (st.dp.N.tdiv (2 * st.half)).toNat + 3
+    (st, fmtList n (gridToList st.half st.dp.N (dpMakeGeo intToRat st.dp st.half st.P)))
+  | ["dpmkblk"] =>
+    let cpb := (st.dp.N.tdiv st.nb).toNat
+    (st, fmtList (cpb * cpb + 2) (gridToList st.nb st.nb (dpMakeBlock intToRat st.dp st.nb st.P)))
+  | ["dpitereff", mode] =>
+    let n := st.dp.N.toNat * ((2 * st.dp.h + 1).toNat + 3)
+    if mode == "rat" then (st, fmtList n (vecToList st.dp.N (dpIterateEff st.dp st.V st.V2 st.P)))
+    else
+      let r := dpIterateEff st.dp (vecToFloat st.dp.N st.V) (vecToFloat st.dp.N st.V2) (dpToFloat st.dp st.P)
+      (st, fmtList n ((intRange 0 (st.dp.N - 1)).map fun a => floatToRat (r.get (0, a))))
+  | ["dpitergeo"] =>
+    let n := 2 * (st.dp.N.tdiv (2 * st.half)).toNat + 6
+    (st, fmtList n (gridToList st.half st.dp.N (dpIterateGeo intToRat st.dp st.half st.TG2 st.P)))
+  | ["dpiterblk"] =>
+    let cpb := (st.dp.N.tdiv st.nb).toNat
+    (st, fmtList (cpb * cpb + 5) (gridToList st.nb st.nb (dpIterateBlock intToRat st.dp st.nb st.TB2 st.P)))
+  | ["dpkl", thr] =>
+    let F1 := dpToFloat st.dp st.P
+    let F2 := dpToFloat st.dp st.P2
+    let v := dpKL Float.log st.dp F1 F2 (ratToFloat (Q thr))
+    let mag := st.dp.canon.foldl (fun s c => s + F1.get c + F2.get c) (0 : Float)
     (st, s!"kl {fmtRat (floatToRat v)} {fmtRat (floatToRat mag)}")
   | _ => (st, "bad-op")
 
